@@ -35,9 +35,9 @@ def node_has(pred: AstPred) -> NodePred:
     def f(n: Node) -> bool:
         if n.ast is None or n.kind not in ("stmt", "test", "for", "with"):
             return False
-        from .cfg import _node_roots
+        from .cfg import _node_roots, _walk_root
 
-        return any(pred(x) for root in _node_roots(n) for x in q.walk_local(root))
+        return any(pred(x) for root in _node_roots(n) for x in _walk_root(root))
 
     return f
 
